@@ -9,9 +9,14 @@ import (
 // optSet is one option set of a target.
 type optSet struct {
 	Label string // "" = plain
-	Opts  string // comma separated generator options
+	Opts  string // comma separated generator options ({SUB} = the harness sub directory of the compilation)
 	Extra []string
+	Bare  bool // go only: package_prefix= (empty): compiled outside emit.Harness.Gen, built as dot-less modules
 }
+
+// goBareSet is the boundary value "package_prefix=" (present but empty): the
+// emitted packages import each other by their bare names.
+var goBareSet = optSet{Label: "package_prefix=(empty)", Opts: "package_prefix=", Bare: true}
 
 type target struct {
 	Name string // go, java, dart, py, py:asyncio, py:tornado, json, html
@@ -43,6 +48,9 @@ func targets() []target {
 			{Label: "slim", Opts: "slim"},
 			{Label: "suppress_deprecated_logging", Opts: "suppress_deprecated_logging"},
 			{Label: "omit_server_service_generation", Opts: "omit_server_service_generation"},
+			// boundary: the prefix without the trailing slash the compiler must add
+			// (emit.Harness.Gen passes it with the slash; a later option wins)
+			{Label: "package_prefix-without-trailing-slash", Opts: "package_prefix=vh/gen/{SUB}"},
 			{Label: "async+slim+suppress_deprecated_logging", Opts: "async,slim,suppress_deprecated_logging"},
 			{Label: "delim", Extra: []string{"-delim", "-"}},
 		}},
@@ -96,5 +104,6 @@ func stressClasses() []stressClass {
 		{"i8", "i8", func(c *idl.Config) { c.I8Type = true }},
 		{"negative_enum_values", "negative_enum_value", func(c *idl.Config) { c.NegativeEnumValues = true }},
 		{"const_map_non_string_keys", "const_map_non_string_key", func(c *idl.Config) { c.ConstMapNonStringKeys = true }},
+		{"default_from_named_constant", "default_from_named_constant", func(c *idl.Config) { c.DefaultsFromConstants = true }},
 	}
 }
